@@ -568,7 +568,31 @@ def run(ctx):
                                          slice=ast.Constant(value=d_[1]), ctx=ast.Load())
                 return n
         return T().visit(symex.clone(e))
+    # the argument string may be computed by a module-level helper called with std_macro's own arguments: its
+    # returning paths stand for the paths of std_macro (parameters replaced by the arguments of the call)
+    class _HC(object):
+        pass
+    expanded = []
     for cs in cases:
+        v_ = symex.resolve(cs.sub.args[1], cs.env)
+        if isinstance(v_, ast.Call) and isinstance(v_.func, ast.Name) and v_.func.id in hp.functions and \
+                hp.functions[v_.func.id] is not sm and not v_.keywords:
+            h_ = hp.functions[v_.func.id]
+            ren_ = dict(zip([a_.arg for a_ in h_.args.args], v_.args))
+            try:
+                hrs = [c_ for c_ in symex.Walker(want_returns=True).run(h_) if c_.kind == 'return']
+            except symex.TooManyPaths:
+                hrs = []
+            for ic in hrs:
+                o_ = _HC()
+                o_.sub = ast.Call(func=cs.sub.func, args=[cs.sub.args[0], symex.subst(ic.sub, ren_)], keywords=[])
+                o_.env = ic.env
+                o_.conds = list(cs.conds) + [(symex.subst(t_, ren_), p_) for t_, p_ in ic.conds]
+                o_.node = cs.node
+                expanded.append(o_)
+        else:
+            expanded.append(cs)
+    for cs in expanded:
         spec = _norm_items(cs.sub.args[1], cs.env)
         parts = [x for x in _concat_parts(spec) if not (isinstance(x, ast.Constant) and x.value == '')]
         mult = [x for x in parts if isinstance(x, ast.BinOp) and isinstance(x.op, ast.Mult)]
@@ -718,6 +742,40 @@ def run(ctx):
     from . import c02 as _c02
     from .. import core as _core2
     _core2.run_proxied(ctx, _c02, 'R16y', ('R02j',))
+
+    # ---- R16ab: extra delimiters are added to the caller's, not put in their place
+    ctx.rule('R16ab', 'a legacy method that needs more group delimiters (include_brace_chars, stop_upon_closing_brace) builds the new '
+                      'list from <state>.latex_group_delimiters of the state it was given: a list started afresh from the default '
+                      'braces forgets the pairs the caller\'s state already has, and their opening characters come back as plain '
+                      'characters where LatexTokenReader with the equivalent state reports brace_open', 2)
+    n_gd = 0
+    for q_, f_ in sorted(w.functions.items()):
+        if not q_.startswith('_pyltxenc2_'):
+            continue
+        ldefs = {}
+        for a_ in iter_own(f_):
+            if isinstance(a_, ast.Assign) and len(a_.targets) == 1 and isinstance(a_.targets[0], ast.Name):
+                ldefs.setdefault(a_.targets[0].id, []).append(a_.value)
+        vals = []
+        for n_ in iter_own(f_):
+            if isinstance(n_, ast.Call) and call_name(n_) in ('sub_context', 'make_parsing_state') and \
+                    kwarg(n_, 'latex_group_delimiters') is not None:
+                vals.append((n_, kwarg(n_, 'latex_group_delimiters')))
+            elif isinstance(n_, ast.Assign) and len(n_.targets) == 1 and isinstance(n_.targets[0], ast.Subscript) and \
+                    isinstance(n_.targets[0].slice, ast.Constant) and n_.targets[0].slice.value == 'latex_group_delimiters':
+                vals.append((n_, n_.value))
+        for node_, v_ in vals:
+            if isinstance(v_, ast.Name) and len(ldefs.get(v_.id, [])) == 1:
+                v_ = ldefs[v_.id][0]
+            n_gd += 1
+            based = any(isinstance(x_, ast.Attribute) and x_.attr == 'latex_group_delimiters' for x_ in ast.walk(v_))
+            ctx.decide('R16ab', based, w, node_, '%s: new delimiter list built on the given state\'s list' % q_,
+                       '%s sets latex_group_delimiters to %s, which does not start from the delimiters of the parsing state it '
+                       'was given: with a state that already knows a non-default pair, that pair is dropped for this call'
+                       % (q_, short(v_, 60)), construct='%s: latex_group_delimiters' % q_)
+    if n_gd < 2:
+        ctx.unknown('R16ab', w, None, 'only %d delimiter-list constructions found in the legacy methods' % n_gd,
+                    construct='legacy delimiter lists')
 
     # ---- R16z: the environment name that is checked is the one that was written
     ctx.rule('R16z', 'get_latex_environment compares the requested name with the node\'s own environmentname (what the source '
